@@ -232,6 +232,32 @@ pub fn dparse(args: &[&str]) -> Option<Vec<String>> {
     }])
 }
 
+/// `tparse <mimever|cte> <text>` → what the header's own `parse` (the function behind `Headers::get`) makes of a text:
+/// `ok:<major>.<minor>` / `ok:<7|q|b|8|n>` or `err`
+pub fn tparse(args: &[&str]) -> Option<Vec<String>> {
+    use lettre::message::header::Header;
+    let kind = *args.first()?;
+    let text = match String::from_utf8(unhex(args.get(1)?)?) {
+        Ok(t) => t,
+        Err(_) => return Some(vec!["notutf8".into()]),
+    };
+    Some(vec![match kind {
+        "mimever" => match MimeVersion::parse(&text) {
+            Ok(v) => format!("ok:{}.{}", v.major(), v.minor()),
+            Err(_) => "err".into(),
+        },
+        "cte" => match ContentTransferEncoding::parse(&text) {
+            Ok(ContentTransferEncoding::SevenBit) => "ok:7".into(),
+            Ok(ContentTransferEncoding::QuotedPrintable) => "ok:q".into(),
+            Ok(ContentTransferEncoding::Base64) => "ok:b".into(),
+            Ok(ContentTransferEncoding::EightBit) => "ok:8".into(),
+            Ok(ContentTransferEncoding::Binary) => "ok:n".into(),
+            Err(_) => "err".into(),
+        },
+        _ => return None,
+    }])
+}
+
 /// `typed <kind> <a> <b>` → header block and whether `get` returns an equal value
 pub fn typed(args: &[&str]) -> Option<Vec<String>> {
     let kind = *args.first()?;
